@@ -64,6 +64,58 @@ def new_functions():
     return out
 
 
+def _type_defs(src):
+    """{name: normalised text} of every struct/enum definition (with its attribute lines) in `src` outside #[cfg(test)]."""
+    cut = src.find('#[cfg(test)]')
+    body = src[:cut] if cut > 0 else src
+    body = re.sub(r'//[^\n]*', '', body)
+    out = {}
+    for m in re.finditer(r'((?:#\[[^\]]*\]\s*)*)(?:pub(?:\([a-z]+\))?\s+)?(struct|enum)\s+([A-Za-z_0-9]+)', body):
+        i = m.end()
+        # to the terminating `;` (unit/tuple struct) or the matching closing brace
+        depth = 0
+        j = i
+        while j < len(body):
+            c = body[j]
+            if c == '{':
+                depth += 1
+            elif c == '}':
+                depth -= 1
+                if depth == 0:
+                    j += 1
+                    break
+            elif c == ';' and depth == 0:
+                j += 1
+                break
+            j += 1
+        text = re.sub(r'\s+', ' ', body[m.start():j]).strip()
+        # the order of the entries of a derive list means nothing
+        text = re.sub(r'#\[derive\(([^)]*)\)\]', lambda d: '#[derive(%s)]' % ', '.join(sorted(x.strip() for x in d.group(1).split(',') if x.strip())), text)
+        out[m.group(3)] = text
+    return out
+
+
+def changed_types():
+    """Type definitions of /repo/src that differ from the ones the contracts were written against (type_inventory.json, committed), or are new. A
+    derived Debug/PartialEq/Clone cannot be extracted, so what a type renders is known only through its definition. Returns [(file, name)]."""
+    try:
+        inv = json.load(open(os.path.join(VERIF, 'type_inventory.json')))
+    except OSError:
+        return []
+    out = []
+    import glob as _glob
+    for f in sorted(_glob.glob(os.path.join(REPO, 'src', '*.rs'))):
+        try:
+            have = _type_defs(open(f, encoding='utf-8').read())
+        except OSError:
+            continue
+        base = inv.get(os.path.basename(f), {})
+        for n, t in sorted(have.items()):
+            if base.get(n) != t:
+                out.append((os.path.basename(f), n))
+    return out
+
+
 def c18_scan():
     import scan_state
     return scan_state.scan(REPO)
@@ -137,6 +189,10 @@ def run_extras(pid, tier):
     for (f_, n_) in new_functions():
         if pid == 'C08' or (pid == 'C17' and n_ == 'fmt'):
             rep['undecided'].append('%s: new function `%s` is not under contract' % (f_, n_))
+    # a type whose definition changed (new field, other derives) renders through derived impls that cannot be extracted: C17 is undecided for it
+    for (f_, n_) in changed_types():
+        if pid == 'C17':
+            rep['undecided'].append('%s: the definition of type `%s` is not the one the contracts were written against (derived Debug/Display-relevant data may have changed)' % (f_, n_))
     if pid == 'C18':
         sc = c18_scan()
         rep['c18_scan'] = sc
